@@ -739,6 +739,13 @@ impl Heap {
         cell_index!(self.inner.byte_len)
     }
 
+    /// The number of bytes currently reserved for this heap (verification hook).
+    #[cfg(feature = "verif_hooks")]
+    #[inline]
+    pub(crate) fn byte_cap(&self) -> usize {
+        self.inner.byte_cap
+    }
+
     // free space in bytes.
     #[inline]
     fn free_space(&self) -> usize {
